@@ -14,7 +14,7 @@ from typing import TYPE_CHECKING, Any, Callable, Dict, Generator, Iterable, List
 
 import yaml
 
-from . import futures, loaders, utils
+from . import exceptions, futures, loaders, utils
 from .base.utils import call_with_super_check, super_check
 from .utils import PID_TYPE, SAVED_STATE_TYPE
 
@@ -260,7 +260,10 @@ class PicklePersister(Persister):
 
         """
         filepath = self._pickle_filepath(pid, tag)
-        checkpoint = PicklePersister.load_pickle(filepath)
+        try:
+            checkpoint = PicklePersister.load_pickle(filepath)
+        except FileNotFoundError as exc:
+            raise exceptions.PersistenceError(f'no checkpoint for process {pid} with tag {tag}') from exc
 
         return checkpoint.bundle
 
@@ -331,7 +334,10 @@ class InMemoryPersister(Persister):
         self._checkpoints.setdefault(process.pid, {})[tag] = Bundle(process, self._save_context, dereference=True)
 
     def load_checkpoint(self, pid: PID_TYPE, tag: Optional[str] = None) -> Bundle:
-        return copy.deepcopy(self._checkpoints[pid][tag])
+        try:
+            return copy.deepcopy(self._checkpoints[pid][tag])
+        except KeyError as exc:
+            raise exceptions.PersistenceError(f'no checkpoint for process {pid} with tag {tag}') from exc
 
     def get_checkpoints(self) -> List[PersistedCheckpoint]:
         cps = []
